@@ -42,6 +42,7 @@ class HyperLogLogWCache:
                     self._hasher_update(element)
                 self.warmup_set = {}
             self.hll_flag = True
+            self._hasher_update(value)
         else:
             self._hasher_update(value)
 
